@@ -176,6 +176,15 @@ class Model:
         self.relabel(new, temps)
         return ("ret", new)
 
+    def m_mk_crowd(self, op):
+        labels = []
+        for i in range(op["n"]):
+            lab = f"{op['new']}.c{i}"
+            self._new_vertex(lab, "Vertex")
+            self.tags[lab] = 0
+            labels.append(lab)
+        return self.m_mk_universe({"new": op["new"], "cls": op.get("cls", "Universe"), "tag": op.get("tag", 0), "vertices": labels})
+
     def m_mk_edge(self, op):
         a, b = op["a"], op["b"]
         if self.is_bad(a) or self.is_bad(b):
